@@ -1,8 +1,8 @@
 CHECK = {
     "level": "exploration",
     "engine": "flv-tags",
-    "technique": "exhaustive runtime sweeps of the audio/video packagers over the statement's field grid in two directions (frame -> Encode -> Decode, and layout-built canonical body -> Decode -> Encode) plus an exhaustive sweep of the rate-code conversions over all 256 values of the enum's underlying type",
-    "level_text": "Held on the executions observed: the whole declared grid is executed in both tiers - audio: 16 formats x rate x size x channels, AAC trait byte 0..255, Opus all 8 trait-flag subsets (canonical bodies: all 256 trait bytes) x rate codes 8/12/16/24/48 x levels 0/1/0xFF/0x100/0xFFFF; video: all 256 first bytes, AVC/HEVC trait byte 0..255 x composition time 0/1/0xFFFF/0x10000/0xFFFFFF; payload lengths 0..5 and 1000 with PRNG bytes (about 0.75 million Encode/Decode pairs), and every value 0..255 through ToHz and OpusToHz. Field values are exhaustive over that grid; payload contents, payload lengths beyond the list and composition times beyond the five values are sampled (thorough tier only adds random ones). Not a proof.",
+    "technique": "exhaustive runtime sweeps of the audio/video packagers over the statement's field grid in two directions (frame -> Encode -> Decode, and layout-built canonical body -> Decode -> Encode), once in grid order on short-lived packagers and once in PRNG order on long-lived packagers (state carried between calls) plus an exhaustive sweep of the rate-code conversions over all 256 values of the enum's underlying type",
+    "level_text": "Held on the executions observed: the whole declared grid is executed in both tiers - audio: 16 formats x rate x size x channels, AAC trait byte 0..255, Opus all 8 trait-flag subsets (canonical bodies: all 256 trait bytes) x rate codes 8/12/16/24/48 x levels 0/1/0xFF/0x100/0xFFFF; video: all 256 first bytes, AVC/HEVC trait byte 0..255 x composition time 0/1/0xFFFF/0x10000/0xFFFFFF; payload lengths 0..5 and 1000 with PRNG bytes (about 1.5 million Encode/Decode pairs: every grid case twice, the second time in PRNG order on 8 long-lived packagers), and every value 0..255 through ToHz and OpusToHz. Field values are exhaustive over that grid; payload contents, payload lengths beyond the list and composition times beyond the five values are sampled (thorough tier only adds random ones). Not a proof.",
     "level_note": "Trusts the harness's layout table (refflv/bodies.go: FLV E.4.2/E.4.3 as in DESIGN.md section 6, Opus side fields from the library's own documentation comments) for what a canonical body is, and Go's runtime. Only the placement of codec id / frame type in byte 0 is asserted against the layout; whether Encode equals the layout in the other bits is counted, not asserted. A body produced by Encode and rejected by Decode is a violation; a canonical body that is rejected is only counted (the statement quantifies over accepted bodies). Opus frames without the rate flag have rate 0 by definition. Composition times are the unsigned 24-bit values of the statement (negative CTS is outside it). Beyond the letter of the statement, the rates part also requires ToHz/OpusToHz to return (any value) for codes that are not defined - reported under the separate signature c10:rate-conversion-panics-undefined:* so it can be dispositioned on its own.",
     "parts": [
         {"name": "audio", "pkg": "verifharness/prop/c10", "run": "^TestVerif_C10_Audio$",
